@@ -57,6 +57,10 @@ CHECKS = {
    text="Classify.tla (written from the documented rules) gives the reader and container of a name read from the right; TLC enumerates every name up to MaxC components over a vocabulary covering each class, checks the invariance lemmas (inserting numeric/unrecognised components after the stem, appending a compression suffix) and emits every name with its class; each is rendered in several spellings (case variants, junk prefixes/suffixes, class-preserving word substitution over the full word lists) and passed to the real path_to_filetype in both modes; arbitrary byte strings (dots only, empty stem, 4 KiB, non-UTF-8) must classify without panic or hang; renamed real files must produce the corresponding output end-to-end.",
    note="Names with several compression suffixes and bare stems evtx/txt/tar/<compression>/<non-log>/<number> are outside the documented rules. Known finding leading-double-dot.",
    technique="TLA+ function module enumerated by TLC + exhaustive replay on the real classifier"),
+ "C17": dict(engine="Stream3", category="model_checking", design_ref="DESIGN.md §6 C17",
+   text="Stream3.tla transcribes the stage-3 release rules (drop_data_try distance, drop of all line parts but the last, the block-aligned case as a design parameter measured on the real reader); TLC checks for every small file, including lines ending exactly on a block end, that the held-block high-water mark stays under 4 x (largest message span) + c whatever the number of lines. On the code, logs of 10/100/1000/4000-10000 blocks with five line-length distributions, plain/gz/bz2/lz4, several --blocksz, with and without a window, are printed with --summary; blocks/lines/syslines high must stay under the model's bound and must not scale with the size (log2 allowance for the windowed plain case).",
+   note="Memory = the program's own high-water marks; retention caused by printing lag is bounded by the channel, tolerated by the thresholds.",
+   technique="TLA+ model checking (TLC) of release rules + size-decade measurement of the real high-water marks"),
 }
 NA_REASON = "check not built yet in this session (work in progress; will be claimed when its machinery exists)"
 
@@ -87,6 +91,7 @@ manifest = {
    {"name": "TextLog", "path": "spec/TextLog.tla", "serves_properties": ["C02", "C12", "C03", "C17", "C11"], "kind_free_text": "TLA+ specification of lines/messages/reader API; BlockZero.tla transcribes the block-zero acceptance"},
    {"name": "Walk", "path": "spec/Walk.tla", "serves_properties": ["C15"], "kind_free_text": "directory expansion order / filtering / stdin splice"},
    {"name": "Classify", "path": "spec/Classify.tla", "serves_properties": ["C16"], "kind_free_text": "name -> reader/container"},
+   {"name": "Stream3", "path": "spec/Stream3.tla", "serves_properties": ["C17"], "kind_free_text": "stage-3 release rules / retained-set bound"},
    {"name": "Stream", "path": "spec/Stream.tla", "serves_properties": ["C05"], "kind_free_text": "decoder chunk assembly / look-behind drop"},
    {"name": "Ordered", "path": "spec/Ordered.tla", "serves_properties": ["C08", "C09", "C10", "C03"], "kind_free_text": "collect / window / key-ordered emission for record files, evtx, journal"},
    {"name": "BinSearch", "path": "spec/BinSearch.tla", "serves_properties": ["C03"], "kind_free_text": "transcription of the datetime binary search + window walk; TraceBinSearch.tla validates Probe traces"},
